@@ -101,9 +101,11 @@ def run_in_child(root, prog, argv, *, tag='driver', fault=None,
     except Exception:
         pass
     if outcome == 'ok':
-        wrote = any(k == 'open' and r in ('build/Makefile',
-                                          'build/build.ninja')
-                    or (k == 'open' and r.endswith('.sln'))
+        def is_buildfile(rel):
+            base = rel[len('build/'):] if rel.startswith('build/') else rel
+            return (base in ('Makefile', 'build.ninja', 'Makefile.tmp',
+                             'build.ninja.tmp') or base.endswith('.sln'))
+        wrote = any(k in ('open', 'rename') and is_buildfile(r)
                     for k, r in sh.events)
         outcome = 'full' if wrote else 'noop'
     sh.finish(outcome, status)
